@@ -306,4 +306,35 @@ func trieHistory(o *h.Out, rc *h.Rng, ans func(string), secure bool) {
 			o.Violate("c18-root-depends-on-history", fmt.Sprintf("root %x after the history, %x when rebuilt from the final content (%d keys, round %d)", final[:6], fr[:6], len(ks), round))
 		}
 	}
+	// T3: the root is the canonical one - a second hasher (the streaming StackTrie, fed in key order) over the same
+	// content gives the same root.  StackTrie cannot hold a key that is a prefix of another, such contents are skipped.
+	eff := map[string][]byte{}
+	for k, v := range content {
+		ek := k
+		if secure {
+			ek = string(crypto.Keccak256([]byte(k)))
+		}
+		eff[ek] = v
+	}
+	var eks []string
+	for k := range eff {
+		eks = append(eks, k)
+	}
+	sort.Strings(eks)
+	prefixFree := len(eks) > 0 && eks[0] != ""
+	for i := 0; i+1 < len(eks); i++ {
+		if strings.HasPrefix(eks[i+1], eks[i]) {
+			prefixFree = false
+		}
+	}
+	if prefixFree {
+		st := trie.NewStackTrie(nil)
+		for _, k := range eks {
+			st.TryUpdate([]byte(k), eff[k])
+		}
+		if sr := st.Hash(); sr != final {
+			o.Violate("c18-root-not-canonical", fmt.Sprintf("Trie root %x, StackTrie root over the same %d entries %x", final[:6], len(eks), sr[:6]))
+		}
+		o.Count("stacktrie-reference")
+	}
 }
